@@ -64,6 +64,9 @@ pub struct Gen<'t, 'a> {
     /// record patterns allowed in the pattern being generated (known finding: a match with two
     /// record-pattern arms does not compile)
     allow_record_pat: bool,
+    /// literals from a two/three element pool (dense decision trees in generated matches)
+    small_lits: bool,
+    feature_dense_match: bool,
     pub excluded_second_record_pattern: u32,
 }
 
@@ -86,6 +89,8 @@ pub fn gen_program_with(t: &mut Tape, cfg: GenCfg, outer: &[(String, Ty)]) -> Pr
         block: true,
         in_lambda: 0,
         allow_record_pat: true,
+        small_lits: false,
+        feature_dense_match: false,
         excluded_second_record_pattern: 0,
     };
     if !g.cfg.no_decls {
@@ -109,6 +114,9 @@ pub fn gen_program_with(t: &mut Tape, cfg: GenCfg, outer: &[(String, Ty)]) -> Pr
     p.features = features(&p).into_iter().collect();
     if g.excluded_second_record_pattern > 0 {
         p.features.push("excluded:second_record_pattern_arm".into());
+    }
+    if g.feature_dense_match {
+        p.features.push("dense_literal_match".into());
     }
     p
 }
@@ -231,6 +239,16 @@ impl<'t, 'a> Gen<'t, 'a> {
     }
 
     fn lit(&mut self, ty: &Ty) -> Lit {
+        if self.small_lits {
+            return match ty {
+                Ty::Int => Lit::Int([0, 1, 2][self.t.pick(3)]),
+                Ty::Byte => Lit::Byte([0u8, 1][self.t.pick(2)]),
+                Ty::Char => Lit::Char(['a', 'b'][self.t.pick(2)]),
+                Ty::Str => Lit::Str(["", "a", "ab"][self.t.pick(3)].to_string()),
+                Ty::Float => Lit::Float(0f64.to_bits()),
+                _ => Lit::Int(0),
+            };
+        }
         match ty {
             Ty::Int => {
                 let pool: [i64; 14] = [0, 1, 2, 3, -1, 5, 7, 10, -3, 100, 1000, 63, i64::MAX, i64::MIN + 1];
@@ -525,6 +543,33 @@ impl<'t, 'a> Gen<'t, 'a> {
         }
     }
 
+    /// literal-heavy pattern for a tuple of small-domain scalars (columns full of literals)
+    fn dense_pat(&mut self, ty: &Ty, binds: &mut Scope) -> Pat {
+        match ty {
+            Ty::Tuple(ts) => Pat::Tuple(ts.clone().iter().map(|t| self.dense_pat(t, binds)).collect()),
+            Ty::Opt(e) => match self.t.pick(5) {
+                0 => Pat::Wild,
+                1 => Pat::Con("None".into(), vec![]),
+                _ => Pat::Con("Some".into(), vec![self.dense_pat(e, binds)]),
+            },
+            Ty::Bool => match self.t.pick(4) {
+                0 => Pat::Wild,
+                1 => Pat::Con("True".into(), vec![]),
+                _ => Pat::Con("False".into(), vec![]),
+            },
+            Ty::Int | Ty::Char | Ty::Str | Ty::Byte => match self.t.pick(7) {
+                0 => Pat::Wild,
+                1 => {
+                    let x = self.name("m");
+                    binds.push(SVar { name: x.clone(), ty: ty.clone() });
+                    Pat::Var(x)
+                }
+                _ => Pat::Lit(self.lit(ty)),
+            },
+            _ => Pat::Wild,
+        }
+    }
+
     fn scrutinee_ty(&mut self, sc: &Scope) -> Ty {
         // prefer the type of something in scope
         let interesting: Vec<&SVar> = sc
@@ -550,8 +595,56 @@ impl<'t, 'a> Gen<'t, 'a> {
     }
 
     fn gen_match(&mut self, goal: &Ty, sc: &Scope, size: usize) -> Tm {
-        let sty = self.scrutinee_ty(sc);
-        let scrut = self.inl(&sty, sc, size / 3);
+        // "dense" matches: a tuple / constructor of small-domain scalars, many arms whose literal
+        // sub-patterns come from the same tiny pool as the scrutinee, so that later arms and
+        // defaults are reached through partially matching earlier ones
+        let dense = self.t.chance(1, 3);
+        let saved_small = self.small_lits;
+        let (sty, scrut) = if dense {
+            self.small_lits = true;
+            let comp = |g: &mut Self| -> Ty {
+                match g.t.pick(6) {
+                    0 | 1 => Ty::Int,
+                    2 => Ty::Bool,
+                    3 => Ty::Char,
+                    4 => Ty::Str,
+                    _ => Ty::Opt(Box::new(Ty::Int)),
+                }
+            };
+            let n = 2 + self.t.pick(2);
+            let sty = Ty::Tuple((0..n).map(|_| comp(self)).collect());
+            let scrut = match &sty {
+                Ty::Tuple(ts) => Tm::Tuple(
+                    ts.clone()
+                        .iter()
+                        .map(|t| {
+                            // a literal from the pool, or a variable of that type
+                            let vars: Vec<String> = sc.iter().filter(|v| v.ty == *t).map(|v| v.name.clone()).collect();
+                            if !vars.is_empty() && self.t.chance(1, 3) {
+                                Tm::Var(vars[self.t.pick(vars.len())].clone())
+                            } else {
+                                match t {
+                                    Ty::Opt(e) => {
+                                        if self.t.chance(1, 3) {
+                                            Tm::Var("None".into())
+                                        } else {
+                                            Tm::Con("Some".into(), vec![self.leaf(e)])
+                                        }
+                                    }
+                                    other => self.leaf(other),
+                                }
+                            }
+                        })
+                        .collect(),
+                ),
+                _ => unreachable!(),
+            };
+            (sty, scrut)
+        } else {
+            let sty = self.scrutinee_ty(sc);
+            let scrut = self.inl(&sty, sc, size / 3);
+            (sty, scrut)
+        };
         let mut arms = vec![];
         let complete: Vec<Pat> = match &sty {
             Ty::Opt(_) => vec![Pat::Con("Some".into(), vec![Pat::Wild]), Pat::Con("None".into(), vec![])],
@@ -563,13 +656,13 @@ impl<'t, 'a> Gen<'t, 'a> {
                 .collect(),
             _ => vec![],
         };
-        let n_specific = self.t.pick(4);
+        let n_specific = if dense { 3 + self.t.pick(5) } else { self.t.pick(4) };
         let per = (size / 2) / (n_specific + 2).max(1);
         let avoid_two = self.avoid("two_record_pattern_arms");
         let saved_allow = self.allow_record_pat;
         for _ in 0..n_specific {
             let mut binds = vec![];
-            let p = self.gen_pat_for(&sty, 2, &mut binds);
+            let p = if dense { self.dense_pat(&sty, &mut binds) } else { self.gen_pat_for(&sty, 2, &mut binds) };
             if avoid_two && has_record_pat(&p) {
                 self.allow_record_pat = false;
             }
@@ -635,6 +728,10 @@ impl<'t, 'a> Gen<'t, 'a> {
             sc2.extend(binds);
             let body = self.blk(goal, &sc2, per);
             arms.push((p, body));
+        }
+        self.small_lits = saved_small;
+        if dense {
+            self.feature_dense_match = true;
         }
         Tm::Match(Box::new(scrut), arms)
     }
